@@ -236,6 +236,17 @@ def decl(head, item, cid, every=4):
     return via_macro(head, item) if cid % every == 0 else head + item
 
 
+def compile_status(name, mods, prelude='', crate_attrs=None):
+    """one rustc run (metadata only): (exit status, error messages, last lines of the raw stderr) - for inputs that may
+    make the compiler itself die (a proc macro that overflows the stack kills rustc; there are no JSON diagnostics then)"""
+    d = os.path.join(L2, name)
+    shutil.rmtree(d, ignore_errors=True)
+    _write_crate(d, name, list(mods), prelude, True, crate_attrs)
+    rc, diags, stderr = _cargo(d, True, False)
+    raw = [l for l in stderr.split('\n') if l and not l.startswith('{')]
+    return rc, [m['message'] for m in diags if m.get('level') == 'error'], raw[-6:]
+
+
 def first_round_diags(name, mods, prelude='', crate_attrs=None):
     """one rustc run (metadata only) over the batch, erroring modules included: every diagnostic with the module it
     belongs to (or None).  Used to look for proc-macro panics in the REAL compiler, whatever else is wrong with the inputs."""
